@@ -258,35 +258,111 @@ example : step fresh (.startTask true false) =
     step (step fresh (.startTask true false)) (.startTask true false) =
       step fresh (.startTask true false) := by decide
 
-/-- The same statement for the start-task request of an EXISTING task (first_run=False: rerun of a
-    failed task, or an IDLE task continued on resume) is FALSE: `_run_existing` has no "already
-    started" guard, so the second delivery schedules a second action execution (witness: an ERROR
-    task being rerun; one request delivered twice dispatches two actions). -/
+/-- The start-task request of an EXISTING task (first_run=False: rerun of a failed task, or an IDLE
+    task continued on resume), duplicate arriving while the action of the first delivery is in
+    progress (repo fix 258aaaae: `_run_existing` returns for a RUNNING task with an uncompleted
+    execution): after the first delivery the task is RUNNING with a running action execution ... -/
+theorem rerun_start_in_progress (t : Task) (reset : Bool) (h : t.state ≠ .success) :
+    inProgress (step t (.startTask false reset)) = true := by
+  simp only [step, runExisting, h, if_false]
+  split
+  · assumption
+  · simp [inProgress, scheduleAction, hasRunningAction, newAction, AState.completed]
+
+/-- ... and in that situation a further delivery of the request (any reset flag) changes nothing:
+    no second action execution, no second run_action request. -/
+theorem dup_start_task_rerun_in_progress_noop (t' : Task) (reset : Bool) (h : inProgress t' = true) :
+    step t' (.startTask false reset) = t' ∧ verdict t' (.startTask false reset) = .noop := by
+  have hs : t'.state ≠ .success := by
+    intro e
+    simp [inProgress, e] at h
+  simp [step, verdict, runExisting, hs, h]
+
+/-- "the same start-task request ... more than once" for first_run=False, the duplicates arriving
+    while the action of the first delivery is in progress: after the first delivery, ANY number of
+    further start requests (of either kind, any flags) leave the task exactly as the single delivery
+    left it — at most one action dispatched per rerun request. -/
+theorem dup_start_task_rerun_noop (t : Task) (reset : Bool) (ds : List Delivery)
+    (h : t.state ≠ .success) (hds : ∀ d ∈ ds, d.isStart = true) :
+    run (step t (.startTask false reset)) ds = step t (.startTask false reset) := by
+  have h1 := rerun_start_in_progress t reset h
+  generalize step t (.startTask false reset) = t1 at h1
+  induction ds with
+  | nil => rfl
+  | cons d ds ih =>
+    have hd := hds d List.mem_cons_self
+    have hstep : step t1 d = t1 := by
+      cases d with
+      | startTask fr r =>
+        cases fr with
+        | false => exact (dup_start_task_rerun_in_progress_noop t1 r h1).1
+        | true =>
+          have : t1.state ≠ .idle := by
+            intro e
+            simp [inProgress, e] at h1
+          simp [step, runNew, this]
+      | result a k tag => cases hd
+      | wfResult k => cases hd
+      | expiry => cases hd
+    show run (step t1 d) ds = t1
+    rw [hstep]
+    exact ih (fun x hx => hds x (List.mem_cons_of_mem _ hx))
+
+example : let t : Task := { state := .error, actions := [⟨.error, true, 3, 1⟩], dispatched := 1, completions := 1 }
+    (run t [.startTask false false, .startTask false false, .startTask true false,
+            .startTask false true]).dispatched = 2 := by decide
+
+/-- Over ARBITRARY later points the statement is still FALSE: when the restarted task has failed
+    again (state ERROR, every execution completed) before the duplicate arrives, `_run_existing` has
+    nothing to tell the stale request from a new rerun and starts the task once more (witness: an
+    ERROR task, one rerun request, its action fails, the same request again ⇒ a second attempt). -/
 theorem dup_start_task_rerun_full_fails :
     ¬ (∀ (t : Task) (reset : Bool) (ds : List Delivery),
         let t' := run (step t (.startTask false reset)) ds
         step t' (.startTask false reset) = t') := by
   intro h
   have := h { state := .error, actions := [⟨.error, true, 3, 1⟩], dispatched := 1, completions := 1 }
-    false []
+    false [.result 1 .error 4]
   revert this
   decide
 
-/-- the witness spelled out: one rerun request, delivered twice, dispatches twice -/
+/-- the witness spelled out: one rerun request, its attempt fails, the request delivered again
+    dispatches a third action execution -/
 example : (run { state := .error, actions := [⟨.error, true, 3, 1⟩], dispatched := 1, completions := 1 }
-    [.startTask false false, .startTask false false]).dispatched = 3 := by decide
+    [.startTask false false, .result 1 .error 4, .startTask false false]).dispatched = 3 := by decide
 
-/-- What does hold for first_run=False: the duplicate is refused (MistralError, rolled back) when
-    it arrives after the restarted task has SUCCEEDED.  Excluded inputs: every state of the task
-    other than SUCCESS at the time the duplicate arrives (`t'.state ≠ .success`, decidable). -/
-theorem dup_start_task_rerun_partial (t' : Task) (reset : Bool) (h : t'.state = .success) :
-    step t' (.startTask false reset) = t' ∧ verdict t' (.startTask false reset) = .refused := by
-  simp [step, verdict, runExisting, h]
+/-- decidable description of the states in which a first_run=False request is a no-op -/
+def dupSafe (t : Task) : Bool := t.state == .success || inProgress t
+
+/-- What holds for first_run=False at an arbitrary later point: the duplicate changes nothing when the
+    task has SUCCEEDED (refused: MistralError, rolled back) or is still running the first delivery's
+    action; excluded inputs = `dupSafe t' = false` (the task failed / was cancelled again, or is
+    RUNNING with no live execution), and there the request does start one more attempt. -/
+theorem dup_start_task_rerun_partial (t' : Task) (reset : Bool) :
+    (dupSafe t' = true → step t' (.startTask false reset) = t') ∧
+    (dupSafe t' = false → (step t' (.startTask false reset)).dispatched = t'.dispatched + 1) := by
+  constructor
+  · intro h
+    by_cases hs : t'.state = .success
+    · simp [step, runExisting, hs]
+    · have hp : inProgress t' = true := by
+        simp [dupSafe, hs] at h
+        exact h
+      exact (dup_start_task_rerun_in_progress_noop t' reset hp).1
+  · intro h
+    have hs : t'.state ≠ .success := by
+      intro e
+      simp [dupSafe, e] at h
+    have hp : inProgress t' = false := by
+      cases hq : inProgress t' with
+      | false => rfl
+      | true => simp [dupSafe, hq] at h
+    simp [step, runExisting, hs, hp, scheduleAction]
 
 example : let t : Task := { state := .error, actions := [⟨.error, true, 3, 1⟩], dispatched := 1, completions := 1 }
     (run t [.startTask false false, .result 1 .ok 4]).state = .success ∧
-    step (run t [.startTask false false, .result 1 .ok 4]) (.startTask false false) =
-      run t [.startTask false false, .result 1 .ok 4] := by decide
+    dupSafe (run t [.startTask false false, .result 1 .ok 4]) = true ∧
+    dupSafe (run t [.startTask false false, .result 1 .error 4]) = false := by decide
 
 /-- "no task or downstream task is created twice, and no action is dispatched twice" — invariant,
     init. -/
